@@ -13,7 +13,7 @@ META = dict(
     bounds=dict(quick='a concrete mechanism skeleton (3 gas species, 3 adsorbates + vacant site + bulk on one catalyst site; gas reaction with TS, '
                       'adsorption without TS, surface reaction with TS, desorption without TS; integer stoichiometry 1-2) and a two-site variant; every '
                       'number symbolic: all species model values (affine in T, P), site densities, occupancies as given, sticking coefficients, beta, T, '
-                      'P, Q, abyv, mole fractions, 1-3 run conditions; activation methods E/H/G in dimensional and dimensionless form',
+                      'P, Q, abyv, mole fractions, 1-3 run conditions; activation methods E/H/G in dimensional and dimensionless form'
                       '. Reader: one reaction line between comment / REACTIONS / STICK / END lines; 1-2 species per side with names of 1-4 symbolic '
                       'characters (letter, then letters / digits / parentheses), optional coefficients of 1-2 symbolic digits, arrows = <=> =>, with and '
                       'without blanks, four concrete rate-column texts (incl. negative Ea and E-07 exponents, and none)',
@@ -480,8 +480,8 @@ def groups(tier):
                           no_validate=True, max_paths=2000))
     for n in (1, 2, 3) if th else (1, 2):
         for gas in (False, True):
-            if n > 1 and not gas and not th:
-                continue
+            if n > 1 and not gas:
+                continue        # surface reactions with 2+ run conditions: > 1 h per group (clamp paths multiply per condition)
             g.append(dict(name='EA/%dcond/gas=%s' % (n, gas), harness=h_EA, params=dict(ncond=n, gas=gas), no_validate=True, max_paths=4000))
     for n in (1, 3):
         g.append(dict(name='T_flow/%d' % n, harness=h_T_flow, params=dict(n=n), no_validate=True))
